@@ -589,6 +589,45 @@ def term_alternatives(t):
     return [t]
 
 
+def cond_value(c, atom_truth):
+    """truth of a condition term under `atom_truth(term) -> True/False/None` for its atomic parts (None = unknown)"""
+    v = atom_truth(c)
+    if v is not None:
+        return v
+    if isinstance(c, tuple) and c:
+        if c[0] == "u" and c[1] == "not":
+            v = cond_value(c[2], atom_truth)
+            return None if v is None else not v
+        if c[0] == "bool":
+            vs = [cond_value(x, atom_truth) for x in c[2]]
+            if c[1] == "and":
+                return False if any(x is False for x in vs) else (True if all(x is True for x in vs) else None)
+            return True if any(x is True for x in vs) else (False if all(x is False for x in vs) else None)
+        if c[0] == "cmp" and c[1] in ("isnot", "ne", "notin"):
+            inv = {"isnot": "is", "ne": "eq", "notin": "in"}[c[1]]
+            v = cond_value(("cmp", inv) + tuple(c[2:]), atom_truth)
+            return None if v is None else not v
+        if c[0] == "c":
+            return bool(c[1])
+    return None
+
+
+def term_select(t, atom_truth):
+    """the leaf of a nest of conditionals that is selected when the atomic conditions have the given truth values; None if
+    a condition on the way cannot be decided (or the value is an unconditioned join)"""
+    for _ in range(60):
+        if isinstance(t, tuple) and len(t) == 4 and t[0] == "ite":
+            v = cond_value(t[1], atom_truth)
+            if v is None:
+                return None
+            t = t[2] if v else t[3]
+            continue
+        if isinstance(t, tuple) and t and t[0] == "phi":
+            return None
+        return t
+    return None
+
+
 def term_to_nf(t, atom):
     """rational normal form of an arithmetic term; `atom(term)` names the leaves (returns a symbol name or None)"""
     from fractions import Fraction
